@@ -6,10 +6,13 @@ import (
 	"encoding/hex"
 	"encoding/json"
 	"fmt"
+	"github.com/decred/dcrd/dcrec/secp256k1/v4"
 	cbornode "github.com/ipfs/go-ipld-cbor"
+	"github.com/libp2p/go-libp2p/core/crypto"
 	mh "github.com/multiformats/go-multihash"
 	"os"
 	"sort"
+	"strings"
 	"time"
 
 	ipfslog "berty.tech/go-ipfs-log"
@@ -116,6 +119,54 @@ func (a *authEnv) openReplica(n *sim.Node) (*sim.StoreRef, error) {
 		return nil, err
 	}
 	return n.Open(a.addr, realType(a.stype), opts)
+}
+
+// writeListBlock finds the block holding the write list: database manifest -> access-controller manifest -> params.address.
+func (a *authEnv) writeListBlock() (cid.Cid, bool) {
+	pa, err := address.Parse(a.addr)
+	if err != nil {
+		return cid.Undef, false
+	}
+	raw, ok := a.w1.P.RawBlock(pa.GetRoot())
+	if !ok {
+		return cid.Undef, false
+	}
+	var man map[string]interface{}
+	if cbornode.DecodeInto(raw, &man) != nil {
+		return cid.Undef, false
+	}
+	if os.Getenv("VH_DEBUG") != "" {
+		fmt.Fprintf(os.Stderr, "DBG manifest %v\n", man)
+	}
+	acAddr, _ := man["access_controller"].(string)
+	parts := strings.Split(strings.Trim(acAddr, "/"), "/")
+	acCid, err := cid.Decode(parts[len(parts)-1])
+	if err != nil {
+		return cid.Undef, false
+	}
+	raw2, ok := a.w1.P.RawBlock(acCid)
+	if !ok {
+		return cid.Undef, false
+	}
+	var acm map[string]interface{}
+	if cbornode.DecodeInto(raw2, &acm) != nil {
+		return cid.Undef, false
+	}
+	if os.Getenv("VH_DEBUG") != "" {
+		fmt.Fprintf(os.Stderr, "DBG acmanifest %v\n", acm)
+	}
+	params, _ := acm["params"].(map[string]interface{})
+	if params == nil {
+		params, _ = acm["manifest"].(map[string]interface{})
+	}
+	switch v := params["address"].(type) {
+	case cid.Cid:
+		return v, true
+	case string:
+		c, err := cid.Decode(strings.TrimPrefix(v, "/ipfs/"))
+		return c, err == nil
+	}
+	return cid.Undef, false
 }
 
 func (a *authEnv) listed(n *sim.Node) bool {
@@ -426,6 +477,25 @@ func authCmd(args []string) int {
 								who, ref = a.w2, a.rw2
 							}
 							admitted = a.listed(who)
+							if class == "nonwriter" {
+								// the non-writer opens the database afresh while the block that holds the write list cannot be
+								// read: either the open is refused, or the store it gets still refuses its writes
+								if c, ok := a.writeListBlock(); ok {
+									_ = a.rx.S.Close()
+									who.P.Deny(c)
+									nr, oerr := who.Open(a.addr, realType(stype), &orbitdb.CreateDBOptions{Timeout: 2 * time.Second})
+									who.P.Allow(c)
+									res.Stats["open_with_write_list_unreadable"]++
+									if oerr != nil {
+										res.Stats["open_refused_write_list_unreadable"]++
+										if nr, oerr = who.Open(a.addr, realType(stype), nil); oerr != nil {
+											res.Inconclusive = append(res.Inconclusive, bid+": reopen: "+oerr.Error())
+											return
+										}
+									}
+									a.rx, ref = nr, nr
+								}
+							}
 							lenBefore := ref.S.OpLog().Len()
 							effBefore := who.P.EffectCount()
 							_, err := honestWrite(ref, stype, key)
@@ -542,6 +612,9 @@ var tamperFields = []string{"payload", "clock.time", "clock.id", "next", "refs",
 	// not mutations: a genuine, correctly signed and addressed entry of the same writer for another database
 	// (an unrelated one, and one that shares the manifest and differs in the path only)
 	"foreign-db", "sibling-db",
+	// the same signing key written in its other standard form (compressed <-> uncompressed): the field is not
+	// covered by the signature, but it is part of the block
+	"key-recoded",
 	// the genuine entry in another encoding (one more map key, which decoders ignore): another block, another address
 	"reencoded"}
 
@@ -588,6 +661,17 @@ func (a *authEnv) mutate(e *entry.Entry, field string, other cid.Cid, otherAddr 
 		m.LogID = otherAddr
 	case "hash":
 		m.Hash = other
+	case "key-recoded":
+		if pk, err := crypto.UnmarshalSecp256k1PublicKey(e.Key); err == nil {
+			if spk, ok := pk.(*crypto.Secp256k1PublicKey); ok {
+				bk := (*secp256k1.PublicKey)(spk)
+				if len(e.Key) == 33 {
+					m.Key = bk.SerializeUncompressed()
+				} else {
+					m.Key = bk.SerializeCompressed()
+				}
+			}
+		}
 	case "hash-alias":
 		// another CID of the same block: same digest, raw codec
 		m.Hash = cid.NewCidV1(cid.Raw, e.Hash.Hash())
